@@ -60,7 +60,7 @@ def fullhistogram(img):
         This will be of size ``img.max() + 1``.
     """
     _verify_is_integer_type(img, 'fullhistogram')
-    img = np.ascontiguousarray(img)
+    img = np.require(img, requirements='CAW')
     if img.dtype == bool:
         ones = img.sum()
         zeros = img.size - ones
